@@ -4,6 +4,7 @@ import (
 	"flag"
 	"fmt"
 	"strings"
+	"sync"
 	"testing"
 
 	"github.com/256dpi/gomqtt/packet"
@@ -165,8 +166,8 @@ func pickW(r *gen.Rng, ws []int) int {
 
 // what a hostile peer may put into SUBSCRIBE / UNSUBSCRIBE / PUBLISH (the scripted peers bypass the codec, so the
 // broker sees them exactly as a decoder that does not validate topics would hand them over)
-var hostileFilters = []string{"#/x", "a/#/b", "#/#", "+x", "x+/y", "a/#x", "a\x00b", "\x00", "a/+/#/c", "//", "/+/", strings.Repeat("l/", 3000) + "#", strings.Repeat("q", 65535)}
-var hostileTopics = []string{"a/+", "#", "a/#", "+/+", "a\x00", "\x00", "//", strings.Repeat("l/", 3000) + "x", strings.Repeat("q", 65535)}
+var hostileFilters = []string{"#/x", "a/#/b", "#/#", "+x", "x+/y", "a/#x", "a\x00b", "\x00", "a/+/#/c", "//", "/+/", strings.Repeat("l/", 300) + "#", strings.Repeat("q", 2000)}
+var hostileTopics = []string{"a/+", "#", "a/#", "+/+", "a\x00", "\x00", "//", strings.Repeat("l/", 300) + "x", strings.Repeat("q", 2000)}
 
 // randomScript: clients connect, then a weighted random walk over the stimulus alphabet
 func randomScript(r *gen.Rng, o *out.W, prop string, p profile) {
@@ -767,6 +768,133 @@ func c07QueueFull(r *gen.Rng, o *out.W) {
 	o.Sample(fmt.Sprintf("publisher queue full, %d lines", len(w.trace)))
 }
 
+// concurrent storm (C06, C13, C14): one goroutine per peer fires its whole program without waiting for the broker, several
+// peers share a client id (overlapping takeovers), so the broker's processors, ackers and dequeuers really run in parallel.
+// No model verdict (the model steps at quiescence); judged by the order-insensitive monitors: process crash / deadlock
+// (a bubble that cannot drain panics), terminate exactly once, closed signal, one live connection per id when the newcomer
+// gets its CONNACK, will count, request/response pairing, duplicate or unjustified deliveries, window, QoS 2 hand-over.
+func concStorm(r *gen.Rng, o *out.W, prop string) {
+	nextNoModel = true
+	w := newWorld(o, prop, 2+r.Intn(8), 100, nil)
+	nids := 1 + r.Intn(3)
+	n := 3 + r.Intn(6)
+	type prog struct {
+		c  int
+		ps []packet.Generic
+	}
+	var progs []prog
+	for i := 0; i < n; i++ {
+		c := w.Conn()
+		id := []string{"A", "B", "C"}[r.Intn(nids)]
+		clean := r.Intn(3) == 0
+		var will *packet.Message
+		if r.Bool() {
+			w.seq++
+			will = &packet.Message{Topic: topics[r.Intn(3)], Payload: []byte(fmt.Sprintf("will-%d", w.seq)), QOS: packet.QOS(r.Intn(3))}
+		}
+		pr := w.peers[c]
+		pr.clientID, pr.clean, pr.will = id, clean, will
+		cp := packet.NewConnect()
+		cp.ClientID, cp.CleanSession, cp.Will = id, clean, will
+		ps := []packet.Generic{cp}
+		for j, m := 0, r.Intn(8); j < m; j++ {
+			switch r.Intn(6) {
+			case 0, 1:
+				var subs []packet.Subscription
+				for k, kk := 0, 1+r.Intn(3); k < kk; k++ {
+					subs = append(subs, packet.Subscription{Topic: filters[r.Intn(len(filters))], QOS: packet.QOS(r.Intn(3))})
+				}
+				ps = append(ps, &packet.Subscribe{ID: w.nextPid(c), Subscriptions: subs})
+			case 2, 3:
+				w.seq++
+				q := packet.QOS(r.Intn(3))
+				pb := &packet.Publish{Message: packet.Message{Topic: topics[r.Intn(len(topics)-3)], QOS: q, Payload: []byte(fmt.Sprintf("m%d", w.seq))}}
+				if q > 0 {
+					pb.ID = w.nextPid(c)
+				}
+				ps = append(ps, pb)
+				if q == 2 {
+					ps = append(ps, &packet.Pubrel{ID: pb.ID})
+				}
+			case 4:
+				ps = append(ps, &packet.Pingreq{})
+			default:
+				ps = append(ps, &packet.Unsubscribe{ID: w.nextPid(c), Topics: []string{filters[r.Intn(len(filters))]}})
+			}
+		}
+		if r.Intn(6) == 0 {
+			ps = append(ps, &packet.Disconnect{})
+		}
+		progs = append(progs, prog{c, ps})
+	}
+	var wg sync.WaitGroup
+	for _, pg := range progs {
+		wg.Add(1)
+		go func(pg prog) {
+			defer wg.Done()
+			for _, p := range pg.ps {
+				w.Fire(pg.c, p)
+			}
+		}(pg)
+	}
+	wg.Wait()
+	w.settle()
+	for _, pg := range progs {
+		for _, a := range w.peers[pg.c].acks {
+			if strings.HasPrefix(a, "connack") && strings.HasSuffix(a, " 0") {
+				w.peers[pg.c].connected = true
+			}
+		}
+	}
+	// the peers now acknowledge what they received, one step at a time
+	for round := 0; round < 20; round++ {
+		any := false
+		for _, pg := range progs {
+			if w.alive(pg.c) && w.peers[pg.c].connected && len(w.peers[pg.c].unacked) > 0 {
+				w.AckAll(pg.c)
+				any = true
+			}
+		}
+		if !any {
+			break
+		}
+	}
+	w.finish()
+	o.Distinct(fmt.Sprintf("storm %d peers %d ids %d", n, nids, len(w.trace)))
+	o.Sample(fmt.Sprintf("concurrent storm: %d peers, %d client ids, %d history lines", n, nids, len(w.trace)))
+}
+
+// the largest topics the codec admits (C14): a 65535-byte level and a filter / name 3000 levels deep, subscribed, matched,
+// delivered and removed again next to a witness (kept to one short script: the Lean model is slow on such values)
+func c14Huge(r *gen.Rng, o *out.W) {
+	w := newWorld(o, "C14", 10, 100, nil)
+	wit := w.Conn()
+	w.Connect(wit, "W", true, nil, 0, "", "")
+	w.Subscribe(wit, packet.Subscription{Topic: "other/#", QOS: 1})
+	w.mustSurvive[wit] = true
+	c := w.Conn()
+	w.Connect(c, "H", true, nil, 0, "", "")
+	w.mustSurvive[c] = true
+	wide := strings.Repeat("q", 65535)
+	deep := strings.Repeat("l/", 3000)
+	if r.Bool() {
+		w.Subscribe(c, packet.Subscription{Topic: wide, QOS: 1})
+		w.Publish(wit, wide, 1, false, false)
+		w.AckAll(c)
+		w.Unsubscribe(c, wide)
+	} else {
+		w.Subscribe(c, packet.Subscription{Topic: deep + "#", QOS: 1})
+		w.Publish(wit, deep+"x", 1, r.Bool(), false)
+		w.AckAll(c)
+		w.Unsubscribe(c, deep+"#")
+	}
+	w.Publish(c, "other/z", 1, false, false)
+	w.AckAll(wit)
+	w.finish()
+	o.Distinct("huge")
+	o.Sample(fmt.Sprintf("huge topics, %d lines", len(w.trace)))
+}
+
 // takeover storms for C13
 func c13Script(r *gen.Rng, o *out.W) {
 	w := newWorld(o, "C13", 1+r.Intn(3), 100, nil)
@@ -938,12 +1066,17 @@ func TestHarness(t *testing.T) {
 		sc("C12 termination", c12Script)
 	case "C13":
 		sc("C13 takeover", c13Script)
+		sc("C13 concurrent storm", func(r *gen.Rng, o *out.W) { concStorm(r, o, "C13") })
 		sc("C13 stalled takeover", c13Stalled)
 	case "C14":
 		rs("C14 hostile", func() profile {
 			return profile{window: 2 + r.Intn(4), queue: 100, clients: 2 + r.Intn(4), steps: 30 + r.Intn(40), wSub: 4, wUnsub: 1, wPub: 8, wAck: 4, wDrop: 3, wRecon: 4, wRelease: 1, wPing: 1, wBad: 6, wFail: 3, retain: 20, wills: true, qos: all, multiFilter: true}
 		})
 		sc("C14 own queue", c14OwnQueue)
+		if *fShard < 2 {
+			runCase(t, o, "C14 huge topics", func() { c14Huge(r, o) })
+		}
+		sc("C14 concurrent storm", func(r *gen.Rng, o *out.W) { concStorm(r, o, "C14") })
 	case "C15":
 		sc("C15 resume order", c15Resume)
 		rs("C15 ordering", func() profile {
